@@ -623,10 +623,10 @@ func c01Rune(rc *RuleCtx) {
 // ---- C09.class: the classification of the emulated errnos by errors.Is ----
 
 func init() {
-	register(&Rule{ID: "C09.class", Floor: 30, Also: []string{"C01", "C03", "C12"},
-		AlsoFloor: map[string]int{"C01": 30, "C03": 30, "C12": 30},
-		Text:      "errors.Is(err, fs.ErrPermission / fs.ErrExist / fs.ErrNotExist) answers for every error number of the emulation what it answers for the kernel's number: LinuxError.Is, evaluated (through whatever helpers it calls) for every LinuxError constant and each of the three classes, agrees with syscall.Errno.Is of this Go installation evaluated the same way for the same number; WindowsError.Is agrees with the classification of syscall_windows.go (access denied; already exists, dir not empty, file exists; file, bad net path and path not found). The permission-class refusal of a read-only file system, the retry of MkdirTemp on 'exists' and every IsExist / IsNotExist decision of the library rest on it",
-		Run:       c09Class})
+	register(&Rule{ID: "C09.class", Floor: 30, Also: []string{"C01", "C03", "C12", "C17"},
+		AlsoFloor: map[string]int{"C01": 30, "C03": 30, "C12": 30, "C17": 4}, AlsoOnly: map[string][]string{"C17": {"WindowsError"}},
+		Text: "errors.Is(err, fs.ErrPermission / fs.ErrExist / fs.ErrNotExist) answers for every error number of the emulation what it answers for the kernel's number: LinuxError.Is, evaluated (through whatever helpers it calls) for every LinuxError constant and each of the three classes, agrees with syscall.Errno.Is of this Go installation evaluated the same way for the same number; WindowsError.Is agrees with the classification of syscall_windows.go (access denied; already exists, dir not empty, file exists; file, bad net path and path not found). The permission-class refusal of a read-only file system, the retry of MkdirTemp on 'exists' and every IsExist / IsNotExist decision of the library rest on it",
+		Run:  c09Class})
 }
 
 // aval: an abstract value of the small evaluator: a constant, the address-taken load of a package-level variable
